@@ -13,7 +13,7 @@ class FaultSync(Suite):
     rule = ("one injected fault per run: n-th SendMsg/RecvMsg on either endpoint fails (and every later one), context cancelled after k delivered packets, "
             "walk error at entry k, read error after j bytes of a file, hasher/notify callback error at call k, SIGKILL of the process after k packets; "
             "the stream is torn down 150 ms after the start if the calls are still running; then a fault-free transfer into whatever was left. "
-            "Small trees with every position (thorough) / sampled positions (quick), and wide trees (> 132 requests); non-trivial = distinct (tree, fault)")
+            "Small trees with every position (thorough) / sampled positions (quick), and wide trees (140..600 entries: > 132 requests, > 2 x 128 queued stats, early and late faults); non-trivial = distinct (tree, fault)")
 
     def gen(self, rng, tier):
         n = {"quick": 500, "thorough": 12000, "search": 150}[tier]
@@ -21,7 +21,9 @@ class FaultSync(Suite):
         while len(ops) < n:
             wide = rng.random() < 0.1
             if wide:
-                tree = flat_view(rng, rng.choice([140, 200]), (0, 10, 100, 3000))
+                # wide views: more entries than all the internal queues together can hold (2 x 128 + in-flight), so that a fault
+                # finds producers blocked on full queues
+                tree = flat_view(rng, rng.choice([140, 200, 400, 600]), (0, 10, 100, 3000))
             else:
                 tree = gen.disk_tree(rng, rng.choice([5, 12, 30]), 3, types=("dir", "file", "file", "symlink", "hardlink", "fifo"),
                                      file_sizes=(0, 5, 100, 32768, 40000, 70000), xattrs=False)
@@ -35,7 +37,9 @@ class FaultSync(Suite):
             for _ in range(reps):
                 kind = rng.choice(kinds)
                 f = {"kind": kind}
-                if kind in STREAM_FAULTS:
+                if wide and kind in ("cancel", "hasher", "notify", "recvR", "sendR") and rng.random() < 0.6:
+                    f["at"] = rng.randint(1, 8)      # early fault: the whole backlog is still queued
+                elif kind in STREAM_FAULTS:
                     f["at"] = rng.randint(1, 2 * nent + 6)
                 elif kind in ("cancel", "kill"):
                     f["at"] = rng.randint(1, 4 * nent + 6)
